@@ -2069,14 +2069,16 @@ def r09_9(ctx):
                 "stays at the head of its socket's transmit queue for ever, and every datagram queued behind it - also for resolvable destinations - is never transmitted", body=callers[0])
 
 
-@rule('R10.6', ['C10', 'C09', 'C11'], floor=1, clause='the source address of a UDP datagram is taken from the application-supplied metadata (local_address) only when that address is unicast; otherwise the socket falls back to its bound address / the interface\'s source address selection')
+@rule('R10.6', ['C10', 'C09', 'C11'], floor=1, clause='the source address of a UDP datagram is taken from the application-supplied metadata (local_address), or from the address the socket is bound to, only when that address is unicast and not one of the interface\'s broadcast addresses; otherwise the socket falls back to the interface\'s source address selection')
 def r10_6(ctx):
     F = ctx.F
     U = 'socket::udp::Socket'
     d = ctx.method(U, 'dispatch')
     fam = [d] + list(F.closures_of(d.key))
-    n = 0
+    n = m = 0
     uni = lambda g: g[0] == 'bool' and g[2] is True and (is_call(strip(g[1]), '::is_unicast') or is_call(strip(g[1]), '::x_is_unicast'))
+    # ... and not one of the interface's (subnet-directed) broadcast addresses, which is_unicast() cannot know
+    notbc = lambda g: g[0] == 'bool' and g[2] is False and (is_call(strip(g[1]), '::is_broadcast') or is_call(strip(g[1]), '::is_broadcast_v4'))
     # the fall-back: any test of the bound endpoint address / call of the interface's source selection
     fallback = lambda g: g[0] in ('is', 'isnot') and any(l.endswith('.addr') and 'UdpMetadata' not in l and 'local_address' not in l for l in leafs(g[1]))
     for b in fam:
@@ -2091,7 +2093,7 @@ def r10_6(ctx):
                 if not (f[0] == 'is' and f[2] == 'Some' and any(l.endswith('UdpMetadata.local_address') for l in leafs(f[1]))):
                     continue
                 n += 1
-                unis = set(guard_edges(F, b, uni))
+                unis = set(guard_edges(F, b, uni)) & set(guard_edges(F, b, notbc))
                 cut = unis | set(guard_edges(F, b, fallback))
                 seen = b.reachable(start=tb, cut_edges=cut, cut_blocks=gsa)
                 if (bi, tb, lab) not in unis and any(s_ in seen for s_ in news):
@@ -2099,8 +2101,21 @@ def r10_6(ctx):
                             "an application that answers with the metadata of a datagram it received by broadcast / multicast (the usual echo idiom) transmits with that broadcast / "
                             "multicast address as source", body=b, bb=bi)
                 else:
-                    ctx.ok(('udp::dispatch', 'metadata source is unicast'), sample=dict(fn='udp::Socket::dispatch', uses_local_address='only if is_unicast()'))
+                    ctx.ok(('udp::dispatch', 'metadata source is unicast'), sample=dict(fn='udp::Socket::dispatch', uses_local_address='only if is_unicast() and not a broadcast address'))
+            # the bound address: `Some(addr)` of endpoint.addr reaches IpRepr::new only behind the same two tests
+            for tb, lab, f in cond_facts(F, b, bi):
+                if not (f[0] == 'is' and f[2] == 'Some' and any(l.endswith('.addr') and 'UdpMetadata' not in l and 'local_address' not in l and 'ListenEndpoint' in l for l in leafs(f[1]))):
+                    continue
+                m += 1
+                unis = set(guard_edges(F, b, uni)) & set(guard_edges(F, b, notbc))
+                seen = b.reachable(start=tb, cut_edges=unis, cut_blocks=gsa)
+                if (bi, tb, lab) not in unis and any(s_ in seen for s_ in news):
+                    ctx.bad("udp::dispatch|source-from-bound-address-unchecked", "udp dispatch uses the address the socket is bound to as the IP source without checking that it is unicast "
+                            "and not a broadcast address: a socket bound to a group address (224.0.0.251:5353) transmits with the multicast address as source", body=b, bb=bi)
+                else:
+                    ctx.ok(('udp::dispatch', 'bound source is unicast'), sample=dict(fn='udp::Socket::dispatch', uses_bound_address='only if is_unicast() and not a broadcast address'))
     ctx.need(n >= 1, "test of packet_meta.local_address in udp dispatch")
+    ctx.need(m >= 1, "test of the bound address in udp dispatch")
 
 
 @rule('R06.16', ['C06', 'C08', 'C10'], floor=4, clause='an emitter defines the same header bits whether or not it computes the checksum itself: with checksum generation switched off (offloaded) the checksum field and its flag bits are still written (zeroed), not left to the previous buffer content')
